@@ -6,7 +6,7 @@
     and transposition axes the code contains now.  scipy's csr_matrix (dense -> CSR; triples ->
     matrix with duplicates summed) and numpy's reshape/transpose are modelled
     (Qib.Embed.EmbedModel) and tied by the correspondence run. *)
-From Qib Require Import Embed.WireProofs Embed.CsrProofs Base.Inst.
+From Qib Require Import Embed.WireProofs Embed.CsrProofs Embed.HeapObs Base.Inst.
 From Run Require Import GenEmbed.
 Local Open Scope Z_scope.
 
@@ -171,6 +171,53 @@ Proof.
   - apply embed_unitary; assumption.
 Qed.
 Print Assumptions C04_embed_homomorphism.
+
+(** 9. HISTORIES ON ONE GATE OBJECT.  The statements above make the register-level matrix a function of
+    (fields, particles(), as_matrix()) evaluated at the time of the call: every as_circuit_matrix in gates.py is
+    "guards; wires of particles(); _distribute_to_wires" with no assignment (checked by the translator:
+    [gen_acm_funnel_classes] classes), i.e. the recomputing semantics [trace] of Qib.Embed.ObsModel, for the view
+    D (value of the gate object) fields.  Queries may be interleaved with re-binding / re-parametrising the object
+    or any object reached through target_gate()/target_gates()[i] ([GSet]), with assignments of gate-valued
+    fields ([GSetKid]) and with the caller overwriting a matrix it was handed ([Scribble]).
+    For ANY memoising implementation of the same interface whose cache is reset by every such mutation and which
+    hands out copies, the caller ends up with exactly the matrices recomputation gives: each query returned the
+    matrix of the gate's CURRENT value, matrices handed out earlier were not changed by later calls. *)
+Theorem C04_register_matrix_follows_current_state :
+  forall (Q V : Type) (qeqb : Q -> Q -> bool), (forall a b, qeqb a b = true -> a = b) ->
+  forall (D : gval -> Q -> V) (g : gobj) (es : list (oev gmut Q V)),
+    mobs _ _ _ (mrun _ _ _ _ gstep (gview Q V D) qeqb (fun _ => true) false g es)
+    = map Some (trace _ _ _ _ gstep (gview Q V D) g [] es).
+Proof. intros Q V qeqb Hq D g es. apply gate_observations_current_value. exact Hq. Qed.
+Print Assumptions C04_register_matrix_follows_current_state.
+
+(** 9'. conversely: a cache that some view-changing mutation does not reset (e.g. one reset by set_control() but not
+    by target_gate().on(...)) returns the matrix of the OLD state on  query; mutate; query  with the same field list;
+    and a cache whose cell is handed out itself returns the caller's scribble on  query; scribble; query.
+    These two histories, for every mutation of the alphabet, are what checks/C04.py runs on the implementation. *)
+Theorem C04_stale_or_aliased_register_matrix_refuted :
+  forall (Q V : Type) (qeqb : Q -> Q -> bool) (D : gval -> Q -> V) (inval : gmut -> bool) (g : gobj) (q : Q),
+    qeqb q q = true ->
+    (forall alias e, inval e = false -> D (erase (gstep g e)) q <> D (erase g) q ->
+       mobs _ _ _ (mrun _ _ _ _ gstep (gview Q V D) qeqb inval alias g [Query q; Ev e; Query q])
+       <> map Some (trace _ _ _ _ gstep (gview Q V D) g [] [Query q; Ev e; Query q])) /\
+    (forall v, v <> D (erase g) q ->
+       mobs _ _ _ (mrun _ _ _ _ gstep (gview Q V D) qeqb inval true g [Query q; Scribble 0 v; Query q])
+       <> map Some (trace _ _ _ _ gstep (gview Q V D) g [] [Query q; Scribble 0 v; Query q])).
+Proof.
+  intros Q V qeqb D inval g q Hq. split.
+  - intros alias e Hi Hd. apply (gate_cache_not_reset_refuted Q V qeqb D inval alias g e q Hq Hi Hd).
+  - intros v Hv. apply (gate_cache_alias_refuted Q V qeqb D inval g q v Hq Hv).
+Qed.
+Print Assumptions C04_stale_or_aliased_register_matrix_refuted.
+
+(** non-vacuity of 9/9': a controlled gate object (id 0) with target object (id 1); moving the target (GSet [0])
+    changes the value the matrix is a function of, and does not change it when the path leads nowhere *)
+Example C04_instance_history :
+  let g := GObj 0 7 [1; 5]%Z [GObj 1 2 [6]%Z []] in
+  erase (gstep g (GSet [0%nat] [9]%Z)) = GVal 7 [1; 5]%Z [GVal 2 [9]%Z []] /\
+  erase (gstep g (GSet [] [0; 5]%Z)) = GVal 7 [0; 5]%Z [GVal 2 [6]%Z []] /\
+  gstep g (GSet [3%nat] [9]%Z) = g.
+Proof. repeat split. Qed.
 
 (** non-vacuity: a dense non-symmetric 2-wire gate on wires (3, 1) of a 4-wire register, through
     the regenerated function, agrees entrywise with the specification *)
